@@ -12,7 +12,7 @@ HERE = os.path.dirname(os.path.abspath(__file__))
 
 
 def run_child(name, repo, *args, timeout=600):
-    cmd = [sys.executable, os.path.join(HERE, "extras.py"), name, repo] + [str(a) for a in args]
+    cmd = [sys.executable, os.path.join(HERE, "extras_main.py"), name, repo] + [str(a) for a in args]
     try:
         p = subprocess.run(cmd, capture_output=True, text=True, timeout=timeout, env=dict(os.environ, PYTHONPATH=""))
         line = [l for l in p.stdout.splitlines() if l.startswith("RESULT ")]
@@ -60,7 +60,111 @@ def dag_iteration_exhaustive(repo, max_nodes=6):
 
 CHILDREN = {"dag_iteration_exhaustive": dag_iteration_exhaustive}
 
-if __name__ == "__main__":
+
+
+# ------------------------------------------------------------------------------------------------
+def trace_float_grid(repo, max_tick=20000):
+    """C13 float clause, bounded: for on-grid arrivals a = t * (1/tps) (what gentrace writes) and a = t / tps,
+    the real WorkloadTrace must deliver in tick t.  Deviations are classified; 'one tick late because
+    (a / (1/tps)) rounds above t' is the recorded finding D4."""
+    sys.path.insert(0, repo)
+    logging.disable(logging.CRITICAL)
+    from eudoxia.workload.workload import WorkloadTrace, PipelineArrival
+
+    class R:
+        def __init__(self, batches): self.b = batches
+        def batch_by_arrival(self): return iter(self.b)
+
+    kinds, first = {}, {}
+    total = 0
+    for tps in (1, 2, 3, 7, 10, 100, 1000, 100000):
+        ticks = list(range(0, max_tick, 1 if tps <= 10 else 7))
+        for mode in ("gentrace", "division"):
+            arr = [(t * (1.0 / tps)) if mode == "gentrace" else (t / tps) for t in ticks]
+            w = WorkloadTrace(R([[PipelineArrival(a, ("p", i))] for i, a in enumerate(arr)]), tps)
+            got = {}
+            for tick in range(ticks[-1] + 3):
+                for p in w.run_one_tick():
+                    got.setdefault(p[1], tick)
+            for i, t in enumerate(ticks):
+                total += 1
+                d = got.get(i)
+                if d == t:
+                    continue
+                if d is None:
+                    k = "not-delivered"
+                elif d < t:
+                    k = "early"
+                elif d == t + 1 and (arr[i] / (1.0 / tps)) > t:
+                    k = "late-by-rounding"
+                else:
+                    k = "late"
+                kinds[k] = kinds.get(k, 0) + 1
+                first.setdefault(k, {"tick": t, "ticks_per_second": tps, "arrival": arr[i], "delivered_tick": d, "mode": mode})
+    ok = not kinds
+    return {"name": "bounded:trace-float-grid", "ok": ok, "bounded": f"on-grid arrivals, ticks < {max_tick}, 8 tick rates, both ways of writing t/tps",
+            "cases": total, "kinds": kinds, "witness": first, "finding_kinds": sorted(kinds),
+            "detail": "on-grid arrivals delivered in their own tick" if ok else f"deviations: {kinds}"}
+
+
+def trace_replay_random(repo, seed=0, n=300):
+    """C13 bounded: random trace files through the real csv reader and WorkloadTrace; each pipeline once, never early,
+    at the first tick whose start (t / tps) is at or after its arrival, file order kept, late arrivals not delivered."""
+    import io, random
+    sys.path.insert(0, repo)
+    logging.disable(logging.CRITICAL)
+    from eudoxia.workload.csv_io import CSVWorkloadReader
+    rng = random.Random(seed)
+    hdr = "pipeline_id,arrival_seconds,priority,operator_id,parents,baseline_cpu_seconds,cpu_scaling,memory_gb,storage_read_gb\n"
+    kinds, first, total = {}, {}, 0
+    for case in range(n):
+        tps = rng.choice([1, 2, 3, 10, 100, 1000])
+        t, arrs = 0.0, []
+        for i in range(rng.randint(1, 12)):
+            step = rng.choice([0, 0, 1 / tps, 0.5 / tps, rng.random() * 3 / tps, rng.randint(1, 5) / tps, 0.1, 0.29])
+            t = t + step
+            arrs.append(t)
+        rows = "".join(f"p{i},{a!r},QUERY,op1,,1,const,,1\n" for i, a in enumerate(arrs))
+        w = CSVWorkloadReader(io.StringIO(hdr + rows)).get_workload(tps)
+        horizon = int(arrs[-1] * tps) + 3 - rng.choice([0, 0, 2])
+        got, order = {}, []
+        for tick in range(max(horizon, 0)):
+            for p in w.run_one_tick():
+                if p.pipeline_id in got:
+                    kinds["duplicate"] = kinds.get("duplicate", 0) + 1
+                got[p.pipeline_id] = tick
+                order.append(p.pipeline_id)
+        for i, a in enumerate(arrs):
+            total += 1
+            want = next((tk for tk in range(horizon + 5) if a <= tk / tps), None)
+            d = got.get(f"p{i}")
+            k = None
+            if want is not None and want < horizon:
+                if d is None:
+                    k = "not-delivered"
+                elif d < want:
+                    import math
+                    k = "early-by-rounding" if (d == want - 1 and abs(a - d / tps) <= 4 * math.ulp(a)) else "early"
+                elif d > want:
+                    k = "late-by-rounding" if (d == want + 1 and (a / (1.0 / tps)) > want) else "late"
+            elif d is not None and want is not None and d < want:
+                k = "early"
+            if k:
+                kinds[k] = kinds.get(k, 0) + 1
+                first.setdefault(k, {"arrival": a, "ticks_per_second": tps, "first_tick_at_or_after": want, "delivered_tick": d})
+        if order != sorted(order, key=lambda s: int(s[1:])):
+            kinds["file-order-changed"] = kinds.get("file-order-changed", 0) + 1
+            first.setdefault("file-order-changed", {"order": order[:8]})
+    ok = not kinds
+    return {"name": "bounded:trace-replay-random", "ok": ok, "bounded": f"{n} random trace files, <= 12 pipelines, 6 tick rates", "cases": total,
+            "kinds": kinds, "witness": first, "finding_kinds": sorted(kinds), "detail": "ok" if ok else f"deviations: {kinds}"}
+
+
+CHILDREN.update({"trace_float_grid": trace_float_grid, "trace_replay_random": trace_replay_random})
+
+
+# keep at the very end of the file
+def _main():
     name, repo, rest = sys.argv[1], sys.argv[2], sys.argv[3:]
-    res = CHILDREN[name](repo, *[int(x) if x.lstrip("-").isdigit() else x for x in rest])
-    print("RESULT " + json.dumps(res))
+    res = CHILDREN[name](repo, *[int(x) if x.lstrip('-').isdigit() else x for x in rest])
+    print('RESULT ' + json.dumps(res, default=str))
